@@ -114,9 +114,15 @@ func c07Gen(c *chk.Ctx) func(emit func(*h1.Scenario)) {
 							if !c.Thorough() && n == 3 && !((m.max == 99) || (m.min == 0 && m.max == 2) || (m.min == 2 && m.max == 3)) {
 								continue // quick: six representative min/max pairs on three shards
 							}
+							if n == 4 && (!((m.max == 99) || (m.min == 0 && m.max == 2) || (m.min == 2 && m.max == 3) || (m.min == 3 && m.max == 3)) || ui == 2 || ui == 5) {
+								continue // four shards: seven min/max pairs, four unscraped sets
+							}
 							for _, idle := range []int64{0, 3600} {
 								for _, head := range heads {
 									for scaleErr := 0; scaleErr < 3; scaleErr++ {
+										if n == 4 && scaleErr == 2 {
+											continue
+										}
 										sc := &h1.Scenario{Opt: h1.Opt{MaxHead: head, MaxProc: 100, MaxShard: m.max, MinShard: m.min, IdleSec: idle}}
 										rep := h1.Replica{}
 										note := ""
